@@ -27,6 +27,9 @@ content (`Msg.View`: type, serial, both flags, the header attributes as Python v
 receiver must see for it.  Core Lean only.
 -/
 namespace Txdbus.Proto
+/- Everything of this file lives in `Txdbus.Proto.Receive` (`open Txdbus.Proto.Receive` where needed): the flat
+namespace `Txdbus.Proto` is shared with C05 / C20 (Proto/Fds.lean has its own `recvRun`, `Msg`, `Delivery`). -/
+namespace Receive
 
 /-- `message.parseMessage(rawMsg, self._receivedFDs)` on every delivered frame, in delivery order. -/
 def parseFrames {β : Type} (T : Msg.Tables) (C : Msg.BodyCodec β) (frames : List Bytes)
@@ -266,4 +269,5 @@ that was called, `expectedView`, no other flag bits, the raw parts of the messag
 def SentCall.handed {β : Type} (y : SentCall β) : Handed β :=
   ⟨some (callHook y.call), y.expectedView, 0, y.sent.msg.rawHeader, y.sent.msg.rawPadding, y.sent.msg.rawBody⟩
 
+end Receive
 end Txdbus.Proto
